@@ -23,6 +23,34 @@ fn chain_text(ops: &[&str]) -> String {
     s
 }
 
+/// operand modes: 0 = distinct variables, 1 = three variables in rotation (fewer variables than
+/// operands), 2 = literals and one variable alternating, 3 = one variable everywhere
+fn chain_text_mode(ops: &[&str], mode: usize) -> String {
+    let operand = |i: usize| -> String {
+        match mode {
+            0 => vname(i),
+            1 => ["x", "y", "z"][i % 3].to_string(),
+            2 => {
+                if i % 2 == 0 {
+                    format!("{}", 1 + i % 7)
+                } else {
+                    "x".to_string()
+                }
+            }
+            _ => "x".to_string(),
+        }
+    };
+    let mut s = String::with_capacity(ops.len() * 10);
+    s.push_str(&operand(0));
+    for (i, o) in ops.iter().enumerate() {
+        s.push(' ');
+        s.push_str(o);
+        s.push(' ');
+        s.push_str(&operand(i + 1));
+    }
+    s
+}
+
 const PIPES: [Pipe; 5] = [Pipe::P, Pipe::W, Pipe::D, Pipe::PD, Pipe::DF];
 
 fn check_chain(text: &str, table: &Table, what: &str, acc: &mut Acc) {
@@ -254,8 +282,10 @@ fn structured_orders(max_n: usize, rep: &mut Report) {
                     for (j, &pos) in order.iter().enumerate() {
                         ops[pos] = names[m - 1 - j];
                     }
-                    let text = chain_text(&ops);
-                    check_chain3(&text, &table, &format!("structured-{oname}-n{n}"), acc);
+                    for mode in 0..4 {
+                        let text = chain_text_mode(&ops, mode);
+                        check_chain3(&text, &table, &format!("structured-{oname}-operands{mode}-n{n}"), acc);
+                    }
                 }
             }
         },
@@ -264,7 +294,7 @@ fn structured_orders(max_n: usize, rep: &mut Report) {
         rep.absorb(a);
     }
     eprintln!("  structured: t={:.1}s", rep.elapsed());
-    rep.bounds.push(format!("7 structured orders (ascending, descending, evens/odds, inside-out, outside-in, reversed 64-blocks) at every length 2..={max_n}: complete"));
+    rep.bounds.push(format!("7 structured orders (ascending, descending, evens/odds, inside-out, outside-in, reversed 64-blocks) at every length 2..={max_n}, each with 4 operand modes (distinct variables, 3 variables in rotation, literals alternating with a variable, one variable): complete"));
 }
 
 /// (e) chains beyond the inline capacity of the multi-word tracker (32 words = 2048 operands)
@@ -327,7 +357,7 @@ fn very_long_chains(tier: Tier, rep: &mut Report) {
 
 pub fn run(tier: Tier) -> i32 {
     let mut rep = Report::new("C14", tier);
-    rep.rule = "chains v0 o1 v1 ... ok vk of distinct variables whose operator priorities impose a chosen application order: all k! orders for small k, every (operator index, consumed-run) tracker situation at lengths around the 64-operand word boundaries, all orders of a 7-operator window across each boundary, structured orders at every length; through flat (word / slice tracker), deep (slice tracker) and to_deepex (own tracker); oracle: the reference parser's tree; every case is distinct and non-trivial".into();
+    rep.rule = "chains v0 o1 v1 ... ok vk of distinct variables (structured orders also with few repeated variables and literals) whose operator priorities impose a chosen application order: all k! orders for small k, every (operator index, consumed-run) tracker situation at lengths around the 64-operand word boundaries, all orders of a 7-operator window across each boundary, structured orders at every length; through flat (word / slice tracker), deep (slice tracker) and to_deepex (own tracker); oracle: the reference parser's tree; every case is distinct and non-trivial".into();
     rep.assumptions = vec!["as C01; in a valid reduction the operand right of an operator can only have been consumed by that operator itself, so tracker situations are characterised by (index, run length left, run right of the next operand)".into()];
     let kmax = if tier.thorough() { 9 } else { 8 };
     for k in 1..=kmax {
